@@ -84,3 +84,50 @@ Definition builder_count (s : opshape) : option Z :=
   | SDfg outs => Some outs               (* _set_parent_output_count(len(outputs)) *)
   | SLoop j r => Some (j + r)            (* len(variant_rows[1]) + len(outputs) - 1 *)
   end.
+
+(* ---- one operation OBJECT used for several nodes (dfg.py add_op / add / extend, _wire_up; ops.py _PartialOp) ----
+   add_op(op, *args):  new_n = hugr.add_node(op, parent)          -- no count yet
+                       _wire_up(new_n, args): tys = types of the wires;
+                                              if isinstance(op, _PartialOp): op._set_in_types(tys)
+                       return replace(new_n, _num_out_ports=op.num_out)   -- read AFTER the wiring
+   The operation object is mutable: a partial operation (UnpackTuple, CallIndirect, MakeTuple, Noop) is re-typed by
+   every wiring, so what matters for the count is the state the object is in after this use's _set_in_types, not
+   the state it was constructed in or left in by an earlier use. *)
+Inductive wty := WVal | WTup (k : Z) | WFn (nin nout : Z).   (* type of a wire: a plain value, a k-tuple, a function value *)
+Inductive opobj :=
+| OUnpack (types : option Z)     (* UnpackTuple: len(_types), None = not set (IncompleteOp) *)
+| OCallInd (sig_out : option Z)  (* CallIndirect: len(_signature.output), None = not set *)
+| OMake (types : option Z)       (* MakeTuple: len(_types); num_out is the constant 1 *)
+| ONoop (typed : bool)           (* Noop: _type set or not; num_out is the constant 1 *)
+| OFixed (nout : Z).             (* not a _PartialOp (Custom, Tag, ...): carries its own signature *)
+
+(* op._set_in_types(tys) as called by _wire_up; a destructuring / assert failure is OtherError *)
+Definition set_in_types (o : opobj) (ws : list wty) : res opobj :=
+  match o with
+  | OUnpack _ => match ws with [WTup k] => Ok (OUnpack (Some k)) | _ => Err OtherError end   (* (t,) = types; (row,) = t.variant_rows *)
+  | OCallInd _ => match ws with WFn _ nout :: _ => Ok (OCallInd (Some nout)) | _ => Err OtherError end  (* func_sig, *_ = types *)
+  | OMake _ => Ok (OMake (Some (Z.of_nat (length ws))))
+  | ONoop _ => match ws with [_] => Ok (ONoop true) | _ => Err OtherError end                 (* (t,) = types *)
+  | OFixed n => Ok (OFixed n)                                                                 (* not isinstance(op, _PartialOp) *)
+  end.
+(* op.num_out; OtherError = IncompleteOp *)
+Definition obj_num_out (o : opobj) : res Z :=
+  match o with
+  | OUnpack (Some k) | OCallInd (Some k) => Ok k
+  | OUnpack None | OCallInd None => Err OtherError
+  | OMake _ | ONoop _ => Ok 1
+  | OFixed n => Ok n
+  end.
+(* add_op: the object after the call and the count written on the returned handle *)
+Definition add_op_obj (o : opobj) (ws : list wty) : res (opobj * Z) :=
+  bind (set_in_types o ws) (fun o' => bind (obj_num_out o') (fun n => Ok (o', n))).
+(* `add` of a command made from op, and `extend` with several commands made from op, are add_op on the same
+   object, one after the other *)
+Fixpoint reuse_counts (o : opobj) (uses : list (list wty)) : res (list Z) :=
+  match uses with
+  | [] => Ok []
+  | ws :: r => bind (add_op_obj o ws) (fun '(o', n) => bind (reuse_counts o' r) (fun ns => Ok (n :: ns)))
+  end.
+(* the count on the handle of use j *)
+Definition reuse_count (o : opobj) (uses : list (list wty)) (j : nat) : option Z :=
+  match reuse_counts o uses with Ok ns => nth_error ns j | Err _ => None end.
